@@ -689,6 +689,16 @@ func reifyDoArray(
 	arr []value,
 	single bool,
 ) (reflect.Value, Error) {
+	if single {
+		// a value that is no list stands for a list of one element; for a
+		// list type whose elements are lists of the same type this would go
+		// on forever
+		opts.opts.singleDepth++
+		defer func() { opts.opts.singleDepth-- }()
+		if opts.opts.singleDepth > maxSingleDepth {
+			return reflect.Value{}, raiseConversion(opts.opts, val, ErrTypeMismatch, "list")
+		}
+	}
 	aLen := len(arr)
 	tLen := to.Len()
 	for idx := 0; idx < tLen; idx++ {
@@ -728,6 +738,10 @@ func reifyDoArray(
 
 	return to, nil
 }
+
+// maxSingleDepth limits how often one value is taken for a list of one
+// element while it is unpacked into nested list types.
+const maxSingleDepth = 32
 
 // castArr returns the elements of a list value. A value that is no list
 // stands for a list with itself as the only element; single reports that
